@@ -45,9 +45,7 @@ Inductive fres := FOk (ret : list Z) | FRevert (ret : list Z) | FHalt.
 Inductive logitem :=
 | LFrame (c : fctx)              (* a frame starts executing with this context *)
 | LEnd (r : fres)                (* ... and ends like this *)
-| LEvent (this : Z)              (* LOG executed by [this] *)
-(* classification marker of the one situation in which halmos is known to deviate *)
-| LDepthNoCode.                  (* call of an address without account at the depth limit *)
+| LEvent (this : Z).             (* LOG executed by [this] *)
 
 Inductive sres := SOk (ret : list Z) (w : world) | SRevert (ret : list Z) | SHalt.
 
@@ -151,8 +149,7 @@ Fixpoint sexec (s : script) (c : fctx) (w : world) (ctr : Z) (ob rd : list Z) {s
       if is_kcall kd && c_static c && negb (v =? 0) then
         (SHalt, ctr, [LEnd FHalt])         (* a value-bearing CALL is a state modification *)
       else if MAX_DEPTH <? c_depth c + 1 then
-        let '(r, ctr', lg) := sexec rest c w ctr (after_call ob 0 [] rsz []) [] in
-        (r, ctr', (if has_account w to then [] else [LDepthNoCode]) ++ lg)
+        sexec rest c w ctr (after_call ob 0 [] rsz []) []       (* also when [to] has no account *)
       else if carries_value kd && negb (can_pay w (c_this c) v) then
         sexec rest c w ctr (after_call ob 0 [] rsz []) []
       else
@@ -217,10 +214,6 @@ Fixpoint supported (s : script) : bool :=
   | SCall _ to _ _ callee r => negb (reserved (to mod ADDR_MOD)) && supported callee && supported r
   | SCreate _ _ init r => supported init && supported r
   end.
-
-Definition is_marker (l : logitem) : bool :=
-  match l with LDepthNoCode => true | _ => false end.
-Definition clean (lg : list logitem) : bool := forallb (fun l => negb (is_marker l)) lg.
 
 (* sum of the balances of a list of addresses *)
 Fixpoint total (addrs : list Z) (w : world) : Z :=
